@@ -8,6 +8,9 @@ package main
 //   C20 chain <evm|sub|btc> <i|f> <bc> <bi> <sb> <ri>   (each `_` = not written, else an integer; i = Go int, f = float64 as JSON decoding yields)
 //                                        => ok:<confirmations|_>:<interval>:<startBlock>:<retry ns>:<aligned start|panic> | err
 //   C20 merge <d|f|e> <local> <shared>   => chains `;`-separated, each `k=v,…` sorted by key | err    (see c20ParseChains)
+//   C20 mergeclash / mergeexc …          the same op; the generator sends inputs in which a local entry holds an empty value
+//                                        (0, "", false) over a different value of its shared partner to these two instead of `merge`:
+//                                        mergeclash is judged strictly (KNOWN FINDING), mergeexc with that one point excused
 //   C20 dur <field> <d|f|e> <hex text>   => ok:<ns> | err
 
 import (
@@ -248,7 +251,11 @@ func c20ParseChains(s string) []map[string]interface{} {
 			case 'n':
 				m[k] = int(i64(v[1:]))
 			case 'f':
-				m[k] = float64(i64(v[1:]))
+				x, err := strconv.ParseFloat(v[1:], 64)
+				if err != nil {
+					panic("bad float arg " + v)
+				}
+				m[k] = x
 			case 's':
 				m[k] = v[1:]
 			case 't':
@@ -327,7 +334,7 @@ func init() {
 	}
 	ops["C20.chain"] = c20Chain
 	ops["C20.retrywrap"] = func(a []string) string { return c20Chain([]string{a[0], "f", "_", "_", "_", a[1]}) }
-	ops["C20.merge"] = func(a []string) string {
+	mergeOp := func(a []string) string {
 		local := c20ParseChains(a[1])
 		shared := &config.Config{ChainConfigs: c20ParseChains(a[2])}
 		c, err := c20Load(a[0], map[string]string{}, local, shared)
@@ -336,6 +343,7 @@ func init() {
 		}
 		return c20ShowChains(c.ChainConfigs)
 	}
+	ops["C20.merge"], ops["C20.mergeclash"], ops["C20.mergeexc"] = mergeOp, mergeOp, mergeOp
 	ops["C20.dur"] = func(a []string) string {
 		st := map[string]string{}
 		if a[2] != "-" {
@@ -354,6 +362,65 @@ func init() {
 		return "ok:" + strconv.FormatInt(d, 10)
 	}
 	gens["C20"] = genC20
+}
+
+func c20IdNum(v interface{}) (float64, bool) {
+	switch x := v.(type) {
+	case int:
+		return float64(x), true
+	case float64:
+		return x, true
+	}
+	return 0, false
+}
+
+func c20IsEmpty(v interface{}) bool {
+	switch x := v.(type) {
+	case int:
+		return x == 0
+	case float64:
+		return x == 0
+	case string:
+		return x == ""
+	case bool:
+		return !x
+	}
+	return false
+}
+
+// c20HasClash: does some local entry hold an empty value where its shared partner (first entry of numerically equal
+// id) has a visibly different one? Purely syntactic routing of generated inputs; the Lean driver re-derives it.
+func c20HasClash(loc, sh string) bool {
+	shared := c20ParseChains(sh)
+	for _, l := range c20ParseChains(loc) {
+		lid, ok := c20IdNum(l["id"])
+		if !ok {
+			continue
+		}
+		for _, s := range shared {
+			sid, ok := c20IdNum(s["id"])
+			if !ok || sid != lid {
+				continue
+			}
+			for k, v := range l {
+				if sv, has := s[k]; has && c20IsEmpty(v) && c20ShowVal(sv) != c20ShowVal(v) {
+					return true
+				}
+			}
+			break
+		}
+	}
+	return false
+}
+
+// c20EmitMerge routes one merge input to `merge` or to the pair `mergeclash` + `mergeexc`.
+func c20EmitMerge(g *G, loader, loc, sh string) {
+	if c20HasClash(loc, sh) {
+		g.Emit("mergeclash", loader, loc, sh)
+		g.Emit("mergeexc", loader, loc, sh)
+		return
+	}
+	g.Emit("merge", loader, loc, sh)
 }
 
 func genC20(g *G) {
@@ -437,7 +504,7 @@ func genC20(g *G) {
 	for _, l := range []string{"d", "f", "e"} {
 		for _, a := range lv {
 			for _, b := range sv {
-				g.Emit("merge", l, "id=n1,type=sevm"+kv("k", a), "id="+g.Pick([]string{"n1", "f1"})+kv("k", b))
+				c20EmitMerge(g, l, "id=n1,type=sevm"+kv("k", a), "id="+g.Pick([]string{"n1", "f1"})+kv("k", b))
 			}
 		}
 	}
@@ -449,8 +516,29 @@ func genC20(g *G) {
 			{"id=n3,type=sevm", "id=n1;id=n2"}, {"id=n2,type=sx,k=n5;id=n1,type=sy", "id=n1,k=n7;id=f2,k=n8;id=n2,k=n9"},
 			{"-", "id=n1"}, {"id=n1,type=sevm", "-"}, {"id=t,type=sevm", "id=t"},
 		} {
-			g.Emit("merge", l, c[0], c[1])
+			c20EmitMerge(g, l, c[0], c[1])
 		}
+	}
+	// ids: int | float64, fractional / negative / large / float-equal-to-int, on both sides, through every loader.
+	// A local entry may only be merged with a shared entry of numerically EQUAL id; otherwise loading must fail.
+	lids := []string{"n1", "n2", "f2", "f2.5", "f2.001", "f1.75", "f3.25", "f3.999", "n-2", "f-2", "f-2.5", "f0.5", "f-0.5", "f0", "n0",
+		"n4294967296", "f4294967296", "f4294967296.5", "n9007199254740992", "f9007199254740992", "n255", "f255.5", "n256", "f256"}
+	shs := [][]string{{"n1", "n2", "n3"}, {"f1", "f2", "f3"}, {"f2.5", "n2"}, {"n2", "f2.5"}, {"n-2", "f-2.5"}, {"f3.25", "n3", "f1.75", "n1"},
+		{"n4294967296", "f9007199254740992"}, {"f4294967296", "n9007199254740992"}, {"f0.5", "n0"}, {"n255", "n256", "n0"}, {}}
+	for _, l := range []string{"d", "f", "e"} {
+		for _, lid := range lids {
+			for _, ss := range shs {
+				sh := []string{}
+				for _, sid := range ss {
+					sh = append(sh, "id="+sid+",bridge=sbridge"+strings.NewReplacer(".", "_", "-", "m").Replace(sid)+",gas=n7")
+				}
+				c20EmitMerge(g, l, "id="+lid+",type=sevm,gas=n5", joinOr(sh, ";"))
+			}
+		}
+		// two local entries: one legitimate, one fractional neighbour of the same domain
+		c20EmitMerge(g, l, "id=n2,type=sevm;id=f2.5,type=sevm", "id=n2,bridge=sb2;id=n3,bridge=sb3")
+		c20EmitMerge(g, l, "id=f2.5,type=sevm;id=n2,type=sevm", "id=f2,bridge=sb2;id=f3,bridge=sb3")
+		c20EmitMerge(g, l, "id=f2.5,type=sevm;id=f2.5,type=ssubstrate", "id=f2.5,bridge=sb25")
 	}
 	keys := []string{"a", "b", "c", "d", "e"}
 	for i := 0; i < g.Count(1200, 40000); i++ {
@@ -459,7 +547,16 @@ func genC20(g *G) {
 		ids := []int{1, 2, 3, 4}
 		loc, sh := []string{}, []string{}
 		for j := 0; j < nl; j++ {
-			c := "id=n" + itoa(ids[j]) + ",type=s" + g.Pick([]string{"evm", "substrate", "btc"})
+			lid := "n" + itoa(ids[j])
+			switch g.Intn(8) {
+			case 0:
+				lid = "f" + itoa(ids[j]) + g.Pick([]string{".5", ".25", ".75", ".125", ".001", ".999"})
+			case 1:
+				lid = "f" + itoa(ids[j])
+			case 2:
+				lid = g.Pick([]string{"n-", "f-"}) + itoa(ids[j])
+			}
+			c := "id=" + lid + ",type=s" + g.Pick([]string{"evm", "substrate", "btc"})
 			for _, k := range keys {
 				if g.Intn(2) == 0 {
 					vals := []string{"n5", "n6", "sx", "sy", "t", "n-3"}
@@ -485,6 +582,13 @@ func genC20(g *G) {
 				continue
 			}
 			c := "id=" + g.Pick([]string{"n", "f"}) + itoa(ids[j])
+			switch g.Intn(10) {
+			case 0:
+				c += g.Pick([]string{".5", ".25", ".75"}) // only after the "f" form below
+				c = strings.Replace(c, "id=n", "id=f", 1)
+			case 1:
+				c = "id=" + g.Pick([]string{"n-", "f-"}) + itoa(ids[j])
+			}
 			for _, k := range keys {
 				if g.Intn(2) == 0 {
 					c += "," + k + "=" + g.Pick([]string{"n0", "n5", "n7", "s", "sx", "sz", "t", "b"})
@@ -492,7 +596,7 @@ func genC20(g *G) {
 			}
 			sh = append(sh, c)
 		}
-		g.Emit("merge", g.Pick([]string{"d", "f", "e"}), joinOr(loc, ";"), joinOr(sh, ";"))
+		c20EmitMerge(g, g.Pick([]string{"d", "f", "e"}), joinOr(loc, ";"), joinOr(sh, ";"))
 	}
 	// --- durations: integer terms at the unit boundaries, through every loader
 	hs := func(t string) string { return hx([]byte(t)) }
